@@ -850,6 +850,7 @@ func (x *Exec) evalUnOp(st *State, fr *Frame, in *ssa.UnOp) Val {
 		return x.wrapInt(st, "(- "+v.S+")", in.Type())
 	case token.ARROW:
 		x.abstracted["chan receive"] = true
+		defer x.interference(st) // a blocking receive: other goroutines run meanwhile (`interference` clause of the contract)
 		if x.closeOnlyChan(in.X) {
 			x.assumeChanClosed(st, v, "true")
 		}
